@@ -11,3 +11,4 @@ use crate::model::{Float, Value, ValueType};
 pub mod common;
 pub mod shim;
 pub mod c16;
+pub mod c09;
